@@ -66,10 +66,13 @@ def gen_case(rng):
     if rng.random() < 0.2:
         return gen_two_epochs(rng)
     b = inplace.FBuilder(rng)
-    base = b.leaf(rng.choice([(4,), (2, 3), (3, 2), (2, 2, 2), (2, 1, 3), (6,)]), const=False)
-    if rng.random() < 0.35:
-        # an intermediate owner, possibly Fortran-ordered
-        t = b.apply("transpose", [base], {"axes": None}) if rng.random() < 0.6 else base
+    base = b.leaf(rng.choice([(4,), (2, 3), (3, 2), (2, 2, 2), (2, 1, 3), (6,), (2, 3, 2), (3, 2, 2)]), const=False)
+    if rng.random() < 0.4:
+        # an intermediate owner, possibly Fortran-ordered -- or, for 3-d data, with permuted strides (contiguous in neither C nor Fortran order)
+        axes = None
+        if len(base.shape) == 3 and rng.random() < 0.6:
+            axes = rng.choice([[1, 0, 2], [0, 2, 1], [2, 0, 1], [1, 2, 0]])
+        t = b.apply("transpose", [base], {"axes": axes}) if rng.random() < 0.7 else base
         o = b.apply(rng.choice(["positive", "negative", "square"]), [t])
         if o is not None:
             base = o
@@ -143,6 +146,11 @@ def oracle(b, r):
             continue
         bg, vg = obs[root]["pub_grad"], obs[n]["pub_grad"]
         if bg is None:
+            continue
+        if b.tensors[n].const:
+            # a view made constant explicitly never exposes a gradient (C10), whatever its base holds
+            if vg is not None and not isinstance(vg, str):
+                msgs.append("the constant view %s exposes a gradient" % n)
             continue
         if isinstance(bg, str) or isinstance(vg, str):
             continue
